@@ -96,6 +96,9 @@ def _check_base(ck: Checker, rule: str = "C07.check") -> None:
         ck.fail(rule, fn, hn, "no comparison between the recomputed hash and the requested oid was found")
         return
     t, ln, rn, noteq = cmps[0]
+    ck.require(ln and rn, rule, fn, t, "both operands have the '.dir' suffix neutralised",
+               "recomputed hash and oid are compared without neutralising the '.dir' suffix on both sides: a directory object's oid carries '.dir' (and so does a state-cached hash) while a fresh digest does not, so intact directory objects are declared corrupt and deleted",
+               construct=f"{t.text()} / suffix-neutral") if (ln == rn) else None
     ck.require(ln == rn, rule, fn, t, "both operands are normalised the same way",
                "recomputed hash and oid are normalised asymmetrically (e.g. '.dir' suffix stripped on one side only): intact directory objects mismatch",
                construct=f"{t.text()} / symmetric")
